@@ -37,6 +37,15 @@ def classify_crash(rc, stderr_text):
             if f.endswith((".cpp", ".h", ".hpp")) and not f.startswith(("stl_", "new_allocator", "alloc_traits")) and any(t in fn for t in ("Pomerol::", "pMPI::")):
                 where = "::".join(re.sub(r"\(.*", "", fn).split("::")[-2:]).replace("Pomerol::", ""); break
         return "valgrind:%s%s" % (kind, ":" + where if where else ""), (vg.group(0) if vg else "valgrind error exit")[:300] + (" in " + where if where else "")
+    ts = re.search(r"WARNING: ThreadSanitizer: ([a-z \-]+)", err)
+    if rc == 66 or ts:
+        kind = (ts.group(1).strip().replace(" ", "-") if ts else "report")
+        fr = re.findall(r"#\d+ (.+?) (/\S+?):(\d+)", err[ts.start():] if ts else err)
+        where = ""
+        for fn, f, ln in fr:
+            if "/src/pomerol/" in f or "/include/pomerol/" in f or "mpi_dispatcher" in f:
+                where = "::".join(re.sub(r"\(.*", "", fn).split("::")[-2:]).replace("Pomerol::", "") + " " + os.path.basename(f) + ":" + ln; break
+        return "tsan:%s%s" % (kind, ":" + where.split(" ")[0] if where else ""), ("ThreadSanitizer: %s%s" % (kind, " in " + where if where else ""))[:300]
     if rc == 79 or "SIM-WATCHDOG" in err[-2000:]:
         return "hang:cpu-spin", "a rank spun without making any MPI call until the per-run CPU budget was exhausted (livelock outside MPI)"
     if rc < 0:
